@@ -1126,6 +1126,12 @@ func lemma1HitDiscriminator(docNum, normBits uint64) {
 //@ func mergeAndPersistInvertedSection returns (fieldAddrs, dvOffset, err)
 //@ thin
 //@ tags [C18]
+// a refused write of a field's dictionary, of its doc-value block or of its section record ends the merge with that
+// error: the file would otherwise name a dictionary that is not there
+//@ propagates err from (*CountHashWriter).Write [C06,C08,C17]
+// a field's doc-value block starts where the writer stands when the field's doc-value encoder is made - before the
+// replay, whose full chunks are flushed to the writer as it goes
+//@ assert newChunkedContentCoder#1 : 0 <= fieldID && fieldID < len(fieldDvLocsStart) ==> fieldDvLocsStart[fieldID] == uint64(w.n) [C03,C06,C09]
 // the merging goroutine holds no lock (so taking a segment's mutex in dictionary() cannot self-deadlock)
 //@ requires forall r ref :: {muHeld(r)} muHeld(r) == 0 [C11]
 //@ loop 1 invariant forall r ref :: {muHeld(r)} muHeld(r) == 0 [C11]
@@ -1570,6 +1576,12 @@ func lemmaUvLenRange(a []byte, o int) {}
 // every field of the build gets its section address recorded in the same build
 //@ loop 1 step haskey(io.fieldAddrs, fieldID) && mapget(io.fieldAddrs, fieldID) == fieldStart [C01,C09,C10]
 // per posting of a term: the next freq/norm entry is consumed, and its numLocs location entries
+// the per-document term lists are empty when a field's terms start being collected - whether the table was just made
+// or is re-used - so a field without any term writes no doc values and no field sees the previous field's terms
+// (stated for the first document's list: the quantified form is beyond what thin mode decides here)
+//@ loop 2 invariant 0 <= $k && ($k > 0 && len(docTermMap) > 0 ==> len(docTermMap[0]) == 0) [C03]
+//@ loop 3 invariant 0 <= $k && $k <= len(terms) && ($k == 0 && len(docTermMap) > 0 ==> len(docTermMap[0]) == 0) [C03]
+//@ assert (*vellum.Builder).Close#1 : len(terms) == 0 && len(docTermMap) > 0 ==> len(docTermMap[0]) == 0 [C03]
 // every hit of a term - with or without locations - adds the term and a separator to its document's doc-value bytes
 //@ loop 4 step docNum < 0x3fffffffffffffff && int(docNum) < len(docTermMap) ==> len(docTermMap[int(docNum)]) == prev(len(docTermMap[int(docNum)])) + len(term) + 1 [C03]
 //@ loop 4 step 0 <= prev(freqNormOffset) && prev(freqNormOffset) < 0x3fffffffffffffff && 0 <= prev(locOffset) && prev(locOffset) < 0x3fffffffffffffff && freqNorm.numLocs < 0x3fffffffffffffff ==> freqNormOffset == prev(freqNormOffset) + 1 && locOffset == prev(locOffset) + ite(freqNorm.numLocs > 0, freqNorm.numLocs, 0) [C01,C09]
@@ -1690,7 +1702,8 @@ func lemmaUvLenRange(a []byte, o int) {}
 //@ assert writeRoaringWithLen#1 : $r == postings [C01,C06,C09]
 //@ ensures postings == nil ==> offset == 0 && err == nil [C01,C06,C09]
 //@ ensures postings != nil && old(sCard(bmSet(postings))) == 0 ==> offset == 0 && err == nil && w.n == old(w.n) [C01,C06,C08,C09]
-//@ propagates err from (*chunkedIntCoder).writeAt, (*CountHashWriter).Write, writeRoaringWithLen [C17]
+// (a term must not be filed in the dictionary with the offset of a record whose bitmap was refused)
+//@ propagates err from (*chunkedIntCoder).writeAt, (*CountHashWriter).Write, writeRoaringWithLen [C06,C08,C17]
 //@ end
 
 // the single-hit decision callback only inspects the collected term (assumed about the callers' closure - the one
@@ -2387,6 +2400,9 @@ func lemmaSynonymCodeRoundTrip(synonymID, docID uint32) {
 // a field is listed as having doc values only together with a reader for them: entries without a doc-value block
 // (no section offset, or the "not uninverted" marker, for which no reader is made) add no name
 //@ assert store s#1 : fieldDvReader != nil && len($v) == len(s.fieldDvNames) + 1 [C03,C04]
+// the names stay in the order the entries are walked - field-id order, which is the order the file-side loader lists
+// them in: nothing is sorted here
+//@ ensures $sortCalls == old($sortCalls) [C04]
 //@ loop 2 step len(s.fieldDvNames) == prev(len(s.fieldDvNames)) || len(s.fieldDvNames) == prev(len(s.fieldDvNames)) + 1 [C03,C04]
 //@ end
 
